@@ -262,6 +262,18 @@ impl<'tcx> Cx<'tcx> {
                 return format!("{{\"const\":{{\"ty\":{},\"int\":{}{}}}}}", esc(&tys), v, named_s);
             }
         }
+        if cty.is_floating_point() {
+            if let Some(si) = c.const_.try_eval_scalar_int(tcx, env) {
+                let size = si.size();
+                let bits = si.to_uint(size);
+                let v: f64 = if size.bytes() == 4 {
+                    f32::from_bits(bits as u32) as f64
+                } else {
+                    f64::from_bits(bits as u64)
+                };
+                return format!("{{\"const\":{{\"ty\":{},\"float\":{}{}}}}}", esc(&tys), esc(&format!("{}", v)), named_s);
+            }
+        }
         // strings and byte strings
         let inner = match cty.kind() {
             ty::Ref(_, inner, _) => Some(*inner),
